@@ -250,6 +250,22 @@ Abs == INSTANCE ServerAbs WITH
           tok <- [f \in Fds |-> [c \in AbsCL |-> Cardinality({t \in Toks(S) : t.fd = f /\ t.owner = c})]]
 AbsRefines == Abs!Spec
 
+(***************************************************************************)
+(* Second refinement: the epoll-interest core (ServerIntr), whose          *)
+(* invariants NoParkedOutput / NoInvalidWrite / ClosedNoOutput are proved  *)
+(* with TLAPS for any set of descriptors (ServerIntr_proofs.tla).          *)
+(***************************************************************************)
+IntrSt(x) == IF x = "none" THEN "none" ELSE IF x = "Closed" THEN "Closed"
+             ELSE IF x = "AwaitingOutgoing" THEN "Out" ELSE "In"
+PendCount(h) == Len(h.respQ) + (IF h.respBuf # <<>> THEN 1 ELSE 0)
+Intr == INSTANCE ServerIntr WITH
+          FD <- Fds,
+          st <- [f \in Fds |-> IntrSt(S.srv[f].st)],
+          intr <- [f \in Fds |-> S.srv[f].intr],
+          pend <- [f \in Fds |-> PendCount(S.srv[f].http)],
+          infl <- [f \in Fds |-> S.srv[f].infl]
+IntrRefines == Intr!Spec
+
 -----------------------------------------------------------------------------
 WitnessNames == <<"two_event_batch", "refused", "fd_reused", "swept_after_respond", "closed_with_inflight",
                   "interim_sent", "error_400", "partial_write", "hup_mid_poll", "kill_returned", "flush_used",
